@@ -940,11 +940,48 @@ Proof.
   cbn. discriminate.
 Qed.
 
-Lemma SI_run_timers s : SI s -> SI (run_timers s).
+(* an invariant that the four ingredients of the timer pass keep is kept by the pass *)
+Lemma fire_ready_inv (P : st -> Prop) beh :
+  (forall s c, P s -> P (timer_fire s c)) ->
+  (forall s os, P s -> P (fst (apis s os))) ->
+  forall l s cnt, P s -> P (fst (fst (fire_ready beh l s cnt))).
 Proof.
-  unfold run_timers. generalize (due_from 0 (cs s) (now s)). intros l. revert s.
-  induction l as [|k l IH]; intros s H; cbn [fold_left]; auto.
-  apply IH. apply SI_timer_fire; auto.
+  intros Pf Pa. induction l as [|[c|id] l IH]; intros s cnt H; cbn [fire_ready]; auto.
+  pose proof (Pa s (beh cnt) H) as X. destruct (apis s (beh cnt)) as [s1 e1]. cbn [fst] in X.
+  pose proof (IH s1 (S cnt) X) as Y. destruct (fire_ready beh l s1 (S cnt)) as [[s2 e2] n2]. exact Y.
+Qed.
+
+Lemma collect_inv (P : st -> Prop) :
+  (forall s c, P s -> P (upd_c s c (c_set_timer TReady))) ->
+  (forall s l, P s -> P (set_ut s l)) ->
+  forall items s, P s -> P (collect s items).
+Proof.
+  intros Pr Pu items s H. unfold collect.
+  assert (X : forall l s0, P s0 -> P (fold_left (fun s it => match it with
+                                   | RCtx c => upd_c s c (c_set_timer TReady)
+                                   | RUser _ => s end) l s0)).
+  { induction l as [|[c|id] l IH]; intros s0 H0; cbn [fold_left]; auto. }
+  destruct items; [apply X; auto|]. apply Pu. apply X. auto.
+Qed.
+
+Lemma run_timers_inv (P : st -> Prop) beh :
+  (forall s c, P s -> P (upd_c s c (c_set_timer TReady))) ->
+  (forall s l, P s -> P (set_ut s l)) ->
+  (forall s c, P s -> P (timer_fire s c)) ->
+  (forall s os, P s -> P (fst (apis s os))) ->
+  forall s cnt, P s -> P (fst (fst (run_timers beh s cnt))).
+Proof.
+  intros Pr Pu Pf Pa s cnt H. unfold run_timers.
+  apply fire_ready_inv; auto. apply collect_inv; auto.
+Qed.
+
+Lemma SI_run_timers beh s cnt : SI s -> SI (fst (fst (run_timers beh s cnt))).
+Proof.
+  apply (run_timers_inv SI).
+  - intros s0 c H. apply SI_upd_c; auto. cbn. discriminate.
+  - intros s0 l H. eapply SI_same; [| |exact H]; reflexivity.
+  - intros s0 c H. apply SI_timer_fire; auto.
+  - intros s0 os H. apply SI_apis; auto.
 Qed.
 
 Lemma SI_iteration s beh cnt : SI s -> SI (fst (fst (iteration true s beh cnt))).
@@ -957,7 +994,9 @@ Proof.
   assert (H1 : SI (set_closingq s1 [])) by (eapply SI_same; [| |exact X]; reflexivity).
   pose proof (SI_run_closing (closingq s1) _ beh n1 H1) as Y.
   destruct (run_closing (closingq s1) (set_closingq s1 []) beh n1) as [[s2 e2] n2]. cbn [fst] in *.
-  apply SI_run_timers. eapply SI_same; [| |exact Y]; reflexivity.
+  assert (H2 : SI (set_now s2 (clock s2))) by (eapply SI_same; [| |exact Y]; reflexivity).
+  pose proof (SI_run_timers beh _ n2 H2) as Z.
+  destruct (run_timers beh (set_now s2 (clock s2)) n2) as [[s3 e3] n3]. exact Z.
 Qed.
 
 Lemma SI_release s res : SI s -> SI (fst (release s res)).
@@ -998,8 +1037,10 @@ Proof.
   - pose proof (SI_iteration s beh cnt H) as X.
     destruct (iteration true s beh cnt) as [[s1 e1] n1]. cbn [fst] in X.
     pose proof (IH s1 beh n1 X) as Y. destruct (run true s1 os beh n1); exact Y.
-  - pose proof (SI_drain drain_fuel s res beh cnt H) as X.
-    destruct (drain true drain_fuel s res beh cnt) as [[s1 e1] n1]. cbn [fst] in X.
+  - apply IH. eapply SI_same; [| |exact H]; reflexivity.
+  - assert (H' : SI (set_ut s [])) by (eapply SI_same; [| |exact H]; reflexivity).
+    pose proof (SI_drain drain_fuel _ res beh cnt H') as X.
+    destruct (drain true drain_fuel (set_ut s []) res beh cnt) as [[s1 e1] n1]. cbn [fst] in X.
     pose proof (IH s1 beh n1 X) as Y. destruct (run true s1 os beh n1); exact Y.
 Qed.
 
@@ -1097,14 +1138,14 @@ Definition close_all (s : st) : st := fst (apis s (map OClose (seq 0 (length (hs
 Definition closes_clean_stmt (fx : bool) : Prop :=
   forall t0 os beh res,
   (forall k, Forall (fun o => match o with OInit => False | _ => True end) (beh k)) ->
-  loop_close (fst (fst (drain fx drain_fuel (close_all (fst (run fx (init t0) os beh 0))) res beh 0))) = 0 /\
-  live_ctx (fst (fst (drain fx drain_fuel (close_all (fst (run fx (init t0) os beh 0))) res beh 0))) = 0%nat.
+  loop_close (fst (fst (drain fx drain_fuel (close_all (set_ut (fst (run fx (init t0) os beh 0)) [])) res beh 0))) = 0 /\
+  live_ctx (fst (fst (drain fx drain_fuel (close_all (set_ut (fst (run fx (init t0) os beh 0)) [])) res beh 0))) = 0%nat.
 
 Definition w_close : list op :=
   [OInit; OStart 0 1 0 10 0; OStop 0; OStart 0 2 1 10 0; ORelease w_res1; ORun].
 
 Lemma w_close_busy :
-  loop_close (fst (fst (drain false drain_fuel (close_all (fst (run false (init 1000) w_close w_nobeh 0)))
+  loop_close (fst (fst (drain false drain_fuel (close_all (set_ut (fst (run false (init 1000) w_close w_nobeh 0)) []))
                               w_res1 w_nobeh 0))) = UV_EBUSY.
 Proof. vm_compute. reflexivity. Qed.
 
